@@ -408,10 +408,16 @@ def diags(diagonals, offsets=None, shape=None):
     cdef base.idxint n_rows, n_cols, offset
     try:
         diagonals = list(diagonals)
-        if diagonals and np.isscalar(diagonals[0]):
+        if (
+            (diagonals and np.isscalar(diagonals[0]))
+            or (not diagonals and offsets is not None
+                and np.size(offsets) == 1)
+        ):
             # Catch the case where we're being called as (for example)
             #   diags([1, 2, 3], 0)
             # with a single diagonal and offset.
+            # An empty diagonal with one offset is a single (empty) diagonal:
+            #   diags([], 1) is the 1x1 zero matrix.
             diagonals = [diagonals]
     except TypeError:
         raise TypeError("diagonals must be a list of arrays of complex") from None
